@@ -381,6 +381,12 @@ class CallMixin:
             return self.as_path(args[0], n)
         if name in self.eng.node_classes or name == 'ConfigNode':
             meta = self.repo.funcs.get('awesomeyaml/nodes/node.py::ConfigNodeMeta.__call__')
+            if name != 'ConfigNode':
+                # direct construction of a node of a given class: by the (assumed) construction contract
+                cs = [c for c in self.eng.registry.get(meta.key) if c.name == 'construct']
+                if not cs:
+                    self.unsupported(n, f'construction of {name} needs the construct contract')
+                return self.apply_contract(cs[0], meta, [cv] + list(args), kwargs, n, fr)
             return self.call_func(meta, [cv] + list(args), kwargs, n, fr)
         if name in self.repo.classes:
             return self.new_object(name, args, kwargs, n, fr)
